@@ -153,10 +153,26 @@ def uid_chain(chk, f):
     if not chk.require(len(gt) == 1, "C18/length-test", "uuid", "expected one length test of the uid, found %d" % len(gt), "", f.sp()):
         return
     gbb, ge, tt, ft = gt[0]
-    ok_cmp = ge[1] == "Gt" and is_call(ge[2], "String::len") and ge[3] == ("const", KEEP)
-    chk.require(ok_cmp, "C18/length-constant", "uuid", "length test is %s, specification: longer than %d digits" % (show(ge), KEEP),
-                "len > 14", f.sp(gbb))
+    # normalise the comparison to "<edge> is taken iff len >= M" (so `len > 14`, `len >= 15`, `14 < len`,
+    # `!(len <= 14)` are the same test)
+    op, a, b_ = ge[1], ge[2], ge[3]
+    if not is_call(a, "String::len"):
+        a, b_ = b_, a
+        op = {"Gt": "Lt", "Ge": "Le", "Lt": "Gt", "Le": "Ge"}[op]
+    M = None
     long_edge = tt
+    if is_call(a, "String::len") and b_[0] == "const" and isinstance(b_[1], int):
+        k = b_[1]
+        if op == "Gt":
+            M, long_edge = k + 1, tt
+        elif op == "Ge":
+            M, long_edge = k, tt
+        elif op == "Le":
+            M, long_edge = k + 1, ft
+        elif op == "Lt":
+            M, long_edge = k, ft
+    chk.require(M == KEEP + 1, "C18/length-constant", "uuid", "length test is %s, specification: longer than %d digits" % (show(ge), KEEP),
+                "len > 14", f.sp(gbb))
     chk.require(f.b.dominates(sbb, ubb) and f.b.dominates(ubb, gbb), "C18/upper-first", "uuid",
                 "upper-casing does not precede the length test on every path", "source -> upper -> test", f.sp(ubb))
     chk.require(f.edge_dominates((gbb, long_edge), lbb) and f.edge_dominates((gbb, long_edge), pbb) and f.b.dominates(lbb, pbb),
